@@ -433,8 +433,92 @@ struct VM : VMBase
     return lg;
   }
 
+  // backend mode "manual": a simulated thread drives quill's ManualBackendWorker (poll_one / poll) instead of the
+  // library's own backend thread
+  std::thread manual_thread;
+  bool manual_stop = false, manual_ready = false, manual_used = false;
+
+  void start_manual_backend()
+  {
+    if (manual_used)
+    {
+      return; // acquire_manual_backend_worker() can be called once per process
+    }
+    manual_used = true;
+    manual_stop = false;
+    manual_ready = false;
+    int before = sim::thread_count();
+    map_thread(before, -1);
+    H.backend_ids.push_back(before);
+    backend_sim_id = before;
+    manual_thread = std::thread(
+      [this]()
+      {
+        quill::ManualBackendWorker* w = quill::Backend::acquire_manual_backend_worker();
+        w->init(backend_options());
+        manual_ready = true;
+        int64_t const gap = plan.get("manual_gap_ns", 300);
+        int64_t const every = plan.get("manual_gap_every", 3);
+        bool const use_poll = plan.get("manual_poll_all", 0) != 0;
+        uint64_t n = 0;
+        while (!manual_stop)
+        {
+          if (use_poll && (n % 7 == 3))
+          {
+            w->poll();
+          }
+          else
+          {
+            w->poll_one();
+          }
+          ++n;
+          if (gap > 0 && every > 0 && (n % static_cast<uint64_t>(every)) == 0)
+          {
+            std::this_thread::sleep_for(std::chrono::nanoseconds{gap}); // the user's event loop does other work
+          }
+        }
+        w->poll(); // drain everything that is left
+        // ...and keep polling while idle for a moment, as a user's event loop would: the idle path is what reports
+        // failure counters and cleans up removed loggers / exited threads' contexts (the exit drain of the
+        // ManualBackendWorker destructor is out of reach: the run ends with _exit)
+        for (int k = 0; k < 3; ++k)
+        {
+          w->poll_one();
+        }
+        w->poll();
+      });
+    while (!manual_ready)
+    {
+      std::this_thread::sleep_for(std::chrono::microseconds{1});
+    }
+    backend_running = true;
+    record(EV_START_RETURN, before);
+  }
+
+  void stop_backend()
+  {
+    if (plan.get("backend_mode", 0) == 1)
+    {
+      manual_stop = true;
+      if (manual_thread.joinable())
+      {
+        manual_thread.join();
+      }
+    }
+    else
+    {
+      quill::Backend::stop();
+    }
+    backend_running = false;
+  }
+
   void start_backend()
   {
+    if (plan.get("backend_mode", 0) == 1)
+    {
+      start_manual_backend();
+      return;
+    }
     int before = sim::thread_count();
     quill::BackendOptions bo = backend_options();
     if (plan.get("signal_handler", 0))
@@ -761,8 +845,7 @@ struct VM : VMBase
       if (backend_running)
       {
         record(EV_STOP_INVOKE);
-        quill::Backend::stop();
-        backend_running = false;
+        stop_backend();
         record(EV_STOP_RETURN);
         snapshot_files();
       }
@@ -925,8 +1008,7 @@ struct VM : VMBase
     if (plan.get("final_stop", 1) && backend_running)
     {
       record(EV_STOP_INVOKE);
-      quill::Backend::stop();
-      backend_running = false;
+      stop_backend();
       record(EV_STOP_RETURN);
     }
     snapshot_files();
